@@ -214,11 +214,18 @@ pub fn verif_dir() -> std::path::PathBuf {
 pub fn judge_for(check: &dyn Check, plan: &Plan, out: &Outcome) -> (Vec<Violation>, Vec<Violation>) {
     let mut vs = judge::all(plan, out);
     check.extra_judge(plan, out, &mut vs);
+    for (site, detail) in crate::tcpdiff::judge(plan, out) {
+        vs.push(Violation {
+            rule: "tcp-differs",
+            site,
+            detail,
+        });
+    }
     let mut mine = Vec::new();
     let mut other = Vec::new();
     for v in vs {
         // a run that never ends is every property's business (like a process-level death)
-        if check.owns(v.rule) || v.rule == "wedged" {
+        if check.owns(v.rule) || v.rule == "wedged" || v.rule == "tcp-differs" {
             mine.push(v);
         } else {
             other.push(v);
